@@ -33,7 +33,8 @@ INVS_SAFETY = ["ResultAuthentic", "CacheAuthentic", "ConfigAuthentic", "HonestLi
 
 def make(name, clients, client_of, lookups, h, prefix, size_a, size_b, served, max_grow=0, serve_tls=("A",), max_switch=0, coarse=True,
          max_faults=0, fault_kinds=(), tile_detail=True, partial_gone=False, max_restarts=0, init_cfgs=(None,), skip=(),
-         invariants=INVS_SAFETY, properties=("ConfigChain", "MemChain"), emit=True, view=False, extra_invs=(), kind="behaviour", emit_cond="TRUE"):
+         invariants=INVS_SAFETY, properties=("ConfigChain", "MemChain"), emit=True, view=False, extra_invs=(), kind="behaviour", emit_cond="TRUE",
+         scenario=None):
     """Returns (module_text, cfg_text)."""
     mod = ["---- MODULE %s ----" % name, "EXTENDS SumdbClient, Json",
            "MC_ClientOf == " + tla_fun(client_of, lambda v: '"%s"' % v),
@@ -41,6 +42,14 @@ def make(name, clients, client_of, lookups, h, prefix, size_a, size_b, served, m
            "MC_InitServed == " + tla_fun(served),
            "MC_InitCfgs == {" + ", ".join(head(x) for x in init_cfgs) + "}",
            'Interesting == \\E i \\in 1..Len(hist) : (hist[i].op = "WriteConfig" /\\ hist[i].conflict) \\/ (hist[i].op = "Hook" /\\ hist[i].point = "install" /\\ ~hist[i].ok)',
+           # scenarios: shapes of history that random simulation rarely produces; explored exhaustively under a view that
+           # keeps one history per (state, scenario flag)
+           # a thread flushes its head to the configuration although the configuration already holds a larger one than the
+           # thread itself installed (it was overtaken between its install and its flush)
+           'OvertakenFlush == \\E j \\in 1..Len(hist) : hist[j].op = "WriteConfig" /\\ ~hist[j].conflict /\\',
+           '    \\E i \\in 1..(j - 1) : hist[i].op = "Hook" /\\ hist[i].point = "install" /\\ hist[i].ok /\\ hist[i].t = hist[j].t /\\ hist[i].n < hist[j].old.n /\\',
+           '        ~\\E k \\in (i + 1)..(j - 1) : hist[k].op = "Hook" /\\ hist[k].point = "install" /\\ hist[k].ok /\\ hist[k].t = hist[j].t',
+           'ScenView == <<View, %s>>' % (scenario or "TRUE"),
            'Emit == (AllDone /\\ %s) => PrintT(ToJson([w |-> "client", k |-> "%s",' % (emit_cond, kind),
            '    in |-> [h |-> H, prefix |-> Prefix, sizeA |-> SizeA, sizeB |-> SizeB, served |-> InitServed, cfg0 |-> hist[1].head,',
            '            clientOf |-> ClientOf, skip |-> Skip, ops |-> hist],',
@@ -56,7 +65,9 @@ def make(name, clients, client_of, lookups, h, prefix, size_a, size_b, served, m
            "  MaxRestarts = %d" % max_restarts, "  Skip = " + tla_set(skip, quote=False),
            "  ClientOf <- MC_ClientOf", "  Lookups <- MC_Lookups", "  InitServed <- MC_InitServed", "  InitCfgs <- MC_InitCfgs",
            "INIT Init", "NEXT Next"]
-    if view:
+    if scenario:
+        cfg.append("VIEW ScenView")
+    elif view:
         cfg.append("VIEW View")
     if invs:
         cfg.append("INVARIANTS " + " ".join(invs))
@@ -225,6 +236,14 @@ def c14_race_configs(tier):
         c14_config({"t1": "c1", "t2": "c1"}, {"t1": [0], "t2": [1]}, 2, 1, max_grow=0, emit_cond="Interesting"),
         c14_config({"t1": "c1", "t2": "c1", "t3": "c1"}, {"t1": [0], "t2": [1], "t3": [2]}, 3, 1, max_grow=0, emit_cond="Interesting"),
         c14_config({"t1": "c1", "t2": "c1"}, {"t1": [0, 0], "t2": [0, 1]}, 2, 1, max_grow=1),
+    ]
+
+
+def c14_scenario_configs(tier):
+    """Schedules of a given shape, found by exhaustive search under a view (one history per state and scenario flag)."""
+    return [
+        # t1 is overtaken between installing its head and flushing it: t2 completes a lookup with a larger head and starts another
+        c14_config({"t1": "c1", "t2": "c1"}, {"t1": [0], "t2": [1, 2]}, 4, 2, max_grow=2, scenario="OvertakenFlush", emit_cond="OvertakenFlush"),
     ]
 
 
